@@ -114,7 +114,7 @@ private theorem step_summary (L : Lib) (v : Validator) (m : Mode) (σ : State) (
     cases e with
     | sConnect =>
       have : r = (σ.setPhase cid (.http true), .sConnected) := by rw [hr]; unfold step; simp [hp]
-      simp [this, State.setPhase, hp]; intro c hne; simp [hne]
+      simp [this, State.setPhase]; intro c hne; simp [hne]
     | req connect hs =>
       have : r = (σ.setPhase cid .closed, .unmodelled) := by rw [hr]; unfold step; simp [hp]
       simp [this, State.setPhase, Out.forwards]; intro c hne; simp [hne]
